@@ -164,7 +164,7 @@ class OptimizationHistory:
         for constraint in constraints:
             constraint_value = output_names_to_values.get(constraint.name)
             if constraint_value is None:
-                break
+                continue
 
             f_type = constraint.f_type
             if constraints.is_constraint_satisfied(f_type, constraint_value):
